@@ -10,7 +10,7 @@ both routes equals the sequential reference."""
 import random
 import sys
 
-from check_build import Scenario, call, canon
+from check_build import Scenario, call, canon, invoke
 from common import use_repo
 import conc
 from conc import run_schedule
@@ -46,7 +46,7 @@ def one_run(sc, tags, mode, targs, routes, segments, probes, ref):
         target = ov if r == "obj" or not hasattr(ov, "dispatch") else ov.dispatch
 
         def f(_t=target, _p=probes[a]):
-            return canon(_t(_p))
+            return canon(invoke(_t, _p))
 
         fns.append(f)
     ok, results, lengths, trace = run_schedule(fns, segments)
@@ -118,6 +118,27 @@ def explore(seed, n, opts):
                 hot = sorted(rng.sample(hot, 8 * per))
             cuts = sorted(set(rng.sample(positions, min(per, len(positions)))) | set(hot) | {i + 1 for i in hot if i + 1 <= n0})
         bump("cut positions inside resolve / build hand-over", len(hot))
+        # three pre-emptions for the racing first calls: thread 0 stops just after a check, thread 1 runs up to
+        # the hand-over of its own build, thread 0 resumes for a while (a second build?), thread 1 finishes first
+        if mode == "first" and nthreads == 2:
+            _, l1 = one_run(sc, tags, mode, targs, routes, [(1, None)], probes, ref)
+            wh1 = (conc.LAST.get("wheres") or [[], []])[1]
+            hand = ("ensure_compiled", "__call__", "first_entry", "__get__", "compile")
+            early0 = [i for i, f in enumerate(wh) if f in hand][:14]
+            late1 = [i for i, f in enumerate(wh1) if f in hand and i > len(wh1) * 0.5]
+            for _ in range(opts.get("three", 20)):
+                c3 = rng.choice(early0 or [1])
+                m3 = rng.choice(late1 or [max(1, len(wh1) - 1)])
+                k3 = rng.randint(1, max(1, n0))
+                segments = [(0, c3), (1, m3), (0, k3), (1, None)]
+                bump("schedules: three pre-emptions")
+                out["ops"] += 1
+                o["n"] += 1
+                o["nontrivial"] += 1
+                v, _ = one_run(sc, tags, mode, targs, routes, segments, probes, ref)
+                if v is not None:
+                    o["viol"].append({"kind": "conc", "sseed": sseed, "mode": mode, "k": k, "targs": targs, "routes": routes, "segments": segments, **v})
+                    break
         for c in cuts:
             if rng.random() < 0.3 and nthreads == 2:
                 m = rng.randint(1, max(1, lengths[1] if len(lengths) > 1 and lengths[1] else n0))
